@@ -100,6 +100,26 @@ def contract(h, si, title, defaultns):
     ns = si["namespaces"]
     if str(nsnum) not in ns:
         return f"namespace {nsnum} not defined by the site"
+    # (b) the namespace number is the one the site defines for the spelled name (spec table
+    # built from local names, canonical names and aliases, case-insensitively)
+    table = {}
+    for a in si.get("namespacealiases", []):
+        table[a["*"].lower()] = a["id"]
+    for v in ns.values():
+        table[v.get("canonical", v["*"]).lower()] = v["id"]
+    for v in ns.values():
+        table[v["*"].lower()] = v["id"]
+    lead = title.replace("_", " ").strip(" " + MARKS)
+    forced_main = lead.startswith(":")
+    if forced_main:
+        lead = lead[1:].strip(" " + MARKS)
+    if ":" in lead:
+        nm = " ".join(lead.split(":", 1)[0].split()).lower()
+        want = table.get(nm, 0 if forced_main else defaultns)
+    else:
+        want = 0 if forced_main else defaultns
+    if nsnum != want:
+        return f"namespace number {nsnum}, the site defines {want} for this spelling"
     prefix = ns[str(nsnum)]["*"]
     if full != (prefix + ":" if prefix else "") + partial:
         return f"full {full!r} != local name + ':' + partial ({prefix!r}, {partial!r})"
